@@ -173,9 +173,12 @@ func main() {
 					if _, ok := reviewed[f.Key]; ok {
 						continue
 					}
+					if _, ok := reviewed["~"+f.NKey]; ok && f.NKey != "" {
+						continue
+					}
 					isKnown := false
 					for _, k := range known {
-						if k.Status == "known" && k.Property == *prop && k.Key == f.Key {
+						if k.Status == "known" && k.Property == *prop && (k.Key == f.Key || (k.NKey != "" && k.NKey == f.NKey)) {
 							isKnown = true
 						}
 					}
